@@ -8,12 +8,12 @@ for line in open(os.path.join(root, "mutants", "MATRIX.quick.txt")):
     m = re.match(r"MUTANT seeded-(\S+) suite=(\S+) caught:\[(.*?)\]", line)
     if m:
         rows[m.group(1)] = m.group(3).split()
-first = {"AB": 26, "CD": 22, "EF": 16, "GH": 29}  # target-check catches when each round came in (session logs)
-names = {"AB": "round 1 (A, B)", "CD": "round 2 (C, D)", "EF": "round 3 (E, F)", "GH": "round 4 (G, H)"}
+first = {"AB": 26, "CD": 22, "EF": 16, "GH": 29, "IJ": 16}  # target-check catches when each round came in (session logs)
+names = {"AB": "round 1 (A, B)", "CD": "round 2 (C, D)", "EF": "round 3 (E, F)", "GH": "round 4 (G, H)", "IJ": "round 5 (I, J)"}
 out = ["| | changes | caught by the target property's check: first run | final | caught by ≥ 1 check (final) | caught by none |", "|---|---|---|---|---|---|"]
 tot = [0, 0, 0, 0, 0]
 none = []
-for k in ("AB", "CD", "EF", "GH"):
+for k in ("AB", "CD", "EF", "GH", "IJ"):
     grp = {n: c for n, c in rows.items() if n[3] in k}
     tgt = sum(1 for n, c in grp.items() if n[:3] in c)
     anyc = sum(1 for c in grp.values() if c)
@@ -27,7 +27,7 @@ nottarget = sorted(n for n, c in rows.items() if n[:3] not in c and c)
 after = ("In the final matrix %d of the %d changes are caught by at least one quick check, %d of them by the check of the\n"
          "property they were written against. The %d others (%s) are caught where the statement they break lives:\n"
          "failures that only occur under concurrency or a cold start by C12 (and the concurrent variants), history-dependent\n"
-         "ones by C13, reader-protocol ones by C06, generator-tool ones by C17.%s\n"
+         "ones by C13, reader-protocol ones by C06, generator-tool ones by C17, 32-bit ones by the GOARCH=386 jobs.%s\n"
          "The hash/CRC/multiplication rows above are the honest edge of this technique: such changes were found only\n"
          "because a *class* of trick (hash-keyed lookups, digest-keyed memos, scaled offsets) was added to the generators\n"
          "after seeing one instance; an unseen trick of the same rarity (a 2⁻³² value condition with no literal in the\n"
